@@ -17,7 +17,7 @@ CHECKS = {
    text="Seeded schedule exploration of the real ThreadPool (1..4 workers, 0..4 tasks per client, 1..3 clients in quick; up to 16 workers and thousands of tasks in thorough): every interleaving decision, the waiter chosen by notify_one and spurious wake-ups come from one PRNG; exactly-once, wait()-completeness, destructor-drain, future-content and bounded-liveness invariants are evaluated on the sequence-numbered event history. Sampling, not proof.",
    note="Trusted: the simulator's model of pthread mutex/condvar/create/join semantics (POSIX, incl. spurious wake-ups and arbitrary notify_one target); libstdc++ std::thread/condition_variable/future run for real. Scheduling points exist only at intercepted calls.",
    design="§3 C29"),
- "C30": dict(ready=False, level="exploration", engine="vsim-static",
+ "C30": dict(ready=True, level="exploration", engine="vsim-static",
    technique="deterministic simulation: seeded scheduler + simulated process table/pipes/SIGCHLD delivery under the real ProcessManager/SignalManager (link-time --wrap), verdict oracle per command, ASan/UBSan, zero/pattern auto-var-init builds",
    text="Seeded exploration of the relative order of child exit, SIGCHLD delivery (any eligible thread), handler execution and waitpid for 1..4 (quick) / 1..16 (thorough) concurrent managers running commands that exit 0, exit k, die by a signal or fail to exec; execute()'s outcome is compared to the planned fate for every command, plus reaping/descriptor conservation, deadlock and memory-error detection.",
    note="Trusted: the simulated kernel (fork/waitpid/pipe/signal semantics modelled on Linux); the child side of createProcess is a state machine, not executed code. Uninitialised automatic variables are made deterministic with -ftrivial-auto-var-init in two adversarial flavours.",
